@@ -312,11 +312,16 @@ def legacy : Flags :=
 
 /-! ### status -/
 
-/-- `_stat_matches_entry` (with `trust_ctime`, the default). -/
-def statMatches (st e : StatKey) : Bool :=
-  (!(Gen.WorkTree.statCmpCtime && Gen.WorkTree.trustCtimeDefault) || st.ctime == e.ctime) &&
+/-- `_stat_matches_entry(st, entry, trust_ctime)`: the change time (when trusted), the modification
+time and the size are compared exactly; a time stamp is the pair (seconds, nanoseconds), held here as
+`seconds * 10^9 + nanoseconds`, so equality of the numbers is equality of the pairs. -/
+def statMatchesWith (trust : Bool) (st e : StatKey) : Bool :=
+  (!(Gen.WorkTree.statCmpCtime && trust) || st.ctime == e.ctime) &&
   (!Gen.WorkTree.statCmpMtime || st.mtime == e.mtime) &&
   (!Gen.WorkTree.statCmpSize || st.size == e.size)
+
+/-- `_stat_matches_entry` with the default `trust_ctime`. -/
+def statMatches (st e : StatKey) : Bool := statMatchesWith Gen.WorkTree.trustCtimeDefault st e
 
 /-- The comparison `_check_entry_for_changes` makes once the short-cut has failed. -/
 def contentDiffers (fl : Flags) (f : WFile) (e : IEntry) : Bool :=
@@ -381,6 +386,30 @@ def untrackedAt (fl : Flags) (wd : FMap WFile) (index : FMap IEntry) (p : Path) 
 def untrackedOf (fl : Flags) (wd : FMap WFile) (index : FMap IEntry) : List Path :=
   wd.keys.filter (untrackedAt fl wd index)
 
+/-! #### untracked paths in "normal" mode (the default of `porcelain.status`) -/
+
+def joinSlash : List Bytes → Path
+  | [] => []
+  | [c] => c
+  | c :: r => c ++ [slash] ++ joinSlash r
+
+/-- The leading directories of `p`, shallowest first. -/
+def ancestorsOf (p : Path) : List Path :=
+  let comps := splitSlash p
+  (List.range (comps.length - 1)).map (fun i => joinSlash (comps.take (i + 1)))
+
+/-- An untracked file is reported as the shallowest of its leading directories below which the index
+has nothing (with a trailing `/`), or by its own name if every leading directory holds tracked files:
+`any(name.startswith(dir + b"/") for name in index)`. -/
+def collapse (index : FMap IEntry) (u : Path) : Path :=
+  match (ancestorsOf u).find? (fun d => !hasDescendant index d) with
+  | some d => d ++ [slash]
+  | none => u
+
+/-- `get_untracked_paths(untracked_files="normal")` without ignore rules. -/
+def untrackedNormalOf (fl : Flags) (wd : FMap WFile) (index : FMap IEntry) : List Path :=
+  ((untrackedOf fl wd index).map (collapse index)).eraseDups
+
 structure Status where
   add : List Path
   del : List Path
@@ -400,6 +429,12 @@ def status (fl : Flags) (w : World) : Except WErr Status :=
     if !fl.strictDecode || (a ++ d ++ m ++ u).all validUtf8 then
       .ok ⟨a, d, m, u, untrackedOf fl w.wd w.index⟩
     else .error .unicodeDecode
+
+/-- `porcelain.status()` with the default `untracked_files="normal"`. -/
+def statusNormal (fl : Flags) (w : World) : Except WErr Status :=
+  match status fl w with
+  | .error e => .error e
+  | .ok s => .ok { s with untracked := untrackedNormalOf fl w.wd w.index }
 
 def Status.clean (s : Status) : Bool :=
   s.add.isEmpty && s.del.isEmpty && s.mod.isEmpty && s.unstaged.isEmpty && s.untracked.isEmpty
